@@ -86,6 +86,7 @@ var c06R5Reviewed = map[string]string{
 	"checkIncDecTarget":           "++/-- through a reference needs &'",
 	"checkSelectorExpr":           "&'-receiver method call needs a mutable receiver",
 	"findImmutableRefInChain":     "mutability gate helper: finds an immutable reference in the place chain",
+	"immutableRefValueLoc":        "mutability gate helper: the type of an unnamed value in the place chain (call result, field, element)",
 	"checkExpr":                   "type of a borrow expression",
 	"TypeFromTypeNodeWithContext": "builds ReferenceType from the type syntax",
 	"checkBorrowExpr":             "mutable borrow through an immutable reference is rejected",
